@@ -472,6 +472,9 @@ class Interp:
             raise Unsupported(f"isinstance of opaque {v!r}")
         if isinstance(v, Havoc):
             raise Unsupported("isinstance of havoc'd value")
+        if isinstance(v, STerm):
+            hook = self.spec.opaque_hooks.get("sterm_isinstance")
+            return hook(self, v, cls) if hook else False
         if isinstance(v, SymStream):
             kind = v.meta.get("kind", "generator")
             return isinstance(cls, ExtClass) and cls.name.split(".")[-1] in ({"list", "object", "Iterable", "Sequence"} if kind == "list" else {"generator", "object", "Iterable", "Iterator"})
